@@ -553,6 +553,8 @@ def gen_note(repo):
     out.append("def channelBound : Int × List Char × List Char × Int := (%s, %s, %s, %s)" % ((lint(bound("set_channel")[0]),) + tuple(lstr(x) for x in bound("set_channel")[1:3]) + (lint(bound("set_channel")[3]),)))
     out.append("def velocityBound : Int × List Char × List Char × Int := (%s, %s, %s, %s)" % ((lint(bound("set_velocity")[0]),) + tuple(lstr(x) for x in bound("set_velocity")[1:3]) + (lint(bound("set_velocity")[3]),)))
     out.append("def hzSource : List (List Char) := " + llist(lstr(x) for x in hz))
+    out.append("def transposeSource : List (List Char) := " + llist(lstr(x) for x in stmts("transpose")))
+    out.append("def changeOctaveSource : List (List Char) := " + llist(lstr(x) for x in stmts("change_octave")))
     out.append("end Mingus.Gen.Note")
     return "\n".join(out) + "\n"
 
@@ -598,6 +600,13 @@ def gen_bar(repo):
     out.append("def setMeterSource : List (List Char) := " + llist(lstr(x) for x in stmts("set_meter")[:1]))
     out.append("def removeLastSource : List (List Char) := " + llist(lstr(x) for x in stmts("remove_last_entry")))
     out.append("def spaceLeftSource : List (List Char) := " + llist(lstr(x) for x in stmts("space_left")))
+    out.append("def liftSource : List (List Char) := " + llist(lstr(x) for m in ("augment", "diminish", "transpose") for x in stmts(m)))
+    tt = parse(repo, "mingus/containers/track.py")
+    tc = cls(tt, "Track")
+    out.append("def trackLiftSource : List (List Char) := " + llist(lstr(ast.unparse(x)) for m in ("transpose", "augment", "diminish") for x in body_wo_doc(method(tc, m))))
+    nt = parse(repo, "mingus/containers/note_container.py")
+    ncc = cls(nt, "NoteContainer")
+    out.append("def ncLiftSource : List (List Char) := " + llist(lstr(ast.unparse(x)) for m in ("augment", "diminish", "transpose") for x in body_wo_doc(method(ncc, m))))
     out.append("end Mingus.Gen.Bar")
     return "\n".join(out) + "\n"
 
